@@ -141,15 +141,22 @@ def permuted(gd, rng):
     return out
 
 
+def fresh(name):
+    """An equal but DISTINCT str object (names read from a file are never the interned constants a script types, so code
+    that compares names with ``is`` must not get away with it); one-character strings are always shared in CPython."""
+    return "".join(list(name)) if isinstance(name, str) else name
+
+
 def node(name):
     """The y0 node a description name stands for: a plain Variable, or - "A@-B" / "A@+B" - the counterfactual
-    variable A under the intervention -B / +B (a second node with the same ``.name``)."""
+    variable A under the intervention -B / +B (a second node with the same ``.name``).  Every name is a fresh
+    str object."""
     from y0.dsl import Variable
 
     if "@" not in name:
-        return Variable(name)
+        return Variable(fresh(name))
     base, iv = name.split("@", 1)
-    return Variable(base) @ (-Variable(iv[1:]) if iv[0] == "-" else +Variable(iv[1:]))
+    return Variable(fresh(base)) @ (-Variable(fresh(iv[1:])) if iv[0] == "-" else +Variable(fresh(iv[1:])))
 
 
 def two_cf_worlds(gd, rng):
@@ -234,7 +241,38 @@ def embed_wide(gd, rng, total, p_di=None, p_bi=None):
     return {"nodes": nodes, "di": di, "bi": bi, "hostile": "wide:" + str(gd.get("hostile"))}, pad
 
 
+ANNOTATE = True
+
+_WEIGHTS = (None, 0, -2, 3.5, "heavy", float("inf"), float("nan"))
+
+
 def to_nx(gd, mode=None):
+    """``_to_nx`` and then, for two descriptions in five (checksum-chosen, or when the description says
+    ``annotate``), node and edge ATTRIBUTES on the networkx graphs the NxMixedGraph holds (weight=None / 0 / negative /
+    text / inf / nan, a label, a node colour) - what a graph read from a table or converted from another networkx graph
+    carries.  Attributes are not part of the causal diagram: every answer must be what it is without them."""
+    g = _to_nx(gd, mode)
+    k = sum(map(ord, "".join(gd["nodes"]) + "".join(a + b for a, b in gd["di"] + gd["bi"])))
+    if ANNOTATE and (gd.get("annotate") or k % 5 in (1, 3)):
+        i = k
+        for graph in (g.directed, g.undirected):
+            for u, v, data in graph.edges(data=True):
+                i += 1
+                data["weight"] = _WEIGHTS[i % len(_WEIGHTS)]
+                if i % 3 == 0:
+                    data["label"] = f"{u}-{v}"
+                if i % 4 == 0:
+                    data["capacity"] = 0
+            for n, data in graph.nodes(data=True):
+                i += 1
+                if i % 2:
+                    data["color"] = ("red", None, 0)[i % 3]
+        from .. import kernel
+        kernel.count("graph:annotated-with-edge-and-node-data")
+    return g
+
+
+def _to_nx(gd, mode=None):
     """Build the real y0 NxMixedGraph, honouring the insertion order of the description.  The construction path is a
     workload dimension: the add_* mutators, from_edges, from_str_edges (with a full or a partial nodes= list), from_adj and from_str_adj (chosen by a
     hash-seed independent checksum of the description unless ``mode`` is given)."""
